@@ -355,8 +355,38 @@ def unwrap(broker: Any) -> Any:
         return broker
 
 
-def reset_globals() -> None:
-    """Reset process-wide repid state between cases (thread-local connection, Config, class-level emitter)."""
+_LOG_SINK: list = []  # (level, message) of the current case when it runs with the repid logger enabled
+
+
+class _SinkHandler(__import__("logging").Handler):
+    def emit(self, record: Any) -> None:  # formats the record like any real handler would (a formatting error is the handler's, as in logging)
+        try:
+            _LOG_SINK.append((record.levelno, record.getMessage()))
+        except Exception:  # noqa: BLE001  (logging.Handler.handleError does the same: never propagates)
+            _LOG_SINK.append((record.levelno, "<unformattable>"))
+        if len(_LOG_SINK) > 2000:
+            del _LOG_SINK[:1000]
+
+
+_SINK = _SinkHandler()
+
+
+def reset_globals(log: str | None = None) -> None:
+    """Reset process-wide repid state between cases (thread-local connection, Config, class-level emitter).
+    log: level name the host application enabled for the "repid" logger (None: the library default, i.e. WARNING effective)."""
+    import logging
+
+    lg = logging.getLogger("repid")
+    _LOG_SINK.clear()
+    if log:
+        lg.setLevel(getattr(logging, log))
+        if _SINK not in lg.handlers:
+            lg.addHandler(_SINK)
+        lg.propagate = False
+    else:
+        lg.setLevel(logging.NOTSET)
+        if _SINK in lg.handlers:
+            lg.removeHandler(_SINK)
     from repid import Config
     from repid.converter import DefaultConverter
     from repid.main import Repid
